@@ -12,6 +12,9 @@
 //	block, to Decode and to the stream Decoder: result must be an error or a well-formed assertion; no panic, no hang.
 //
 // Part 4 decoder limits: headers / body / signature sizes at limit-1, limit, limit+1.
+// Part 2b: signed assertions whose headers/body/headers+body sit around the decoder read-ahead sizes (4096, 8192) in
+//
+//	streams: byte-identical re-encoding and signature re-verification. Part 3c: every integer-valued header x boundary values.
 package c20_test
 
 import (
@@ -225,6 +228,23 @@ func wellFormed(a asserts.Assertion) string {
 	if a.Revision() < 0 || a.Format() < 0 {
 		return "negative revision or format"
 	}
+	for name, got := range map[string]int{"revision": a.Revision(), "format": a.Format()} {
+		want := 0
+		if hv := a.Header(name); hv != nil {
+			s, ok := hv.(string)
+			if !ok {
+				return name + " header is not a string"
+			}
+			n, err := strconv.Atoi(s)
+			if err != nil {
+				return fmt.Sprintf("%s header %q is not a number but the assertion was accepted", name, s)
+			}
+			want = n
+		}
+		if got != want {
+			return fmt.Sprintf("%s header says %d but the assertion reports %d", name, want, got)
+		}
+	}
 	bl := 0
 	if s, ok := a.Header("body-length").(string); ok {
 		n, err := strconv.Atoi(s)
@@ -273,6 +293,8 @@ type c20Case struct {
 	Size    int             `json:"size,omitempty"`
 	Place   string          `json:"place,omitempty"`
 	Decoder string          `json:"decoder,omitempty"`
+	HeadLen int             `json:"head_len,omitempty"`
+	BodyLen int             `json:"body_len,omitempty"`
 }
 
 type slot struct {
@@ -565,6 +587,155 @@ func textInput(s string) []byte {
 		"\nx" + s + "\nsign-key-sha3-384: " + digest + "\n\nAXNpZw==")
 }
 
+// ---------------------------------------------------------------- part 2b: assertions around the decoder's read-ahead sizes
+
+var (
+	bigMu    sync.Mutex
+	bigCache = map[[2]int]asserts.Assertion{}
+)
+
+func patternBody(n int) []byte {
+	return []byte(strings.Repeat("0123456789abcde\n", n/16+1)[:n])
+}
+
+// bigAssertion signs a snap-declaration whose headers+separator take exactly headLen bytes (0: no padding) and
+// whose body has bodyLen bytes.
+func bigAssertion(headLen, bodyLen int) asserts.Assertion {
+	bigMu.Lock()
+	defer bigMu.Unlock()
+	if a, ok := bigCache[[2]int{headLen, bodyLen}]; ok {
+		return a
+	}
+	mk := func(pad int) asserts.Assertion {
+		extra := map[string]interface{}{}
+		if pad > 0 {
+			extra["x-pad"] = strings.Repeat("p", pad)
+		}
+		a, err := sign("snap-declaration", extra, patternBody(bodyLen))
+		if err != nil {
+			eng.HarnessError("C20: cannot sign padded assertion: %v", err)
+		}
+		return a
+	}
+	headOf := func(a asserts.Assertion) int {
+		content, _ := a.Signature()
+		if i := bytes.Index(content, []byte("\n\n")); i >= 0 {
+			return i + 2
+		}
+		return len(content) + 2
+	}
+	a := mk(0)
+	if headLen > 0 {
+		one := headOf(mk(1))
+		pad := 1 + headLen - one
+		if pad < 1 {
+			eng.HarnessError("C20: head length %d is below the unpadded size", headLen)
+		}
+		a = mk(pad)
+		if headOf(a) != headLen {
+			eng.HarnessError("C20: padded head is %d bytes, wanted %d", headOf(a), headLen)
+		}
+	}
+	bigCache[[2]int{headLen, bodyLen}] = a
+	return a
+}
+
+// checkBig streams the padded assertion alone, first or second (between two small ones) and demands, for every
+// decoded assertion, field equality, a byte-identical encoding and a signature that still verifies.
+func checkBig(small asserts.Assertion, headLen, bodyLen int, place string, chunk int) string {
+	big := bigAssertion(headLen, bodyLen)
+	var seq []asserts.Assertion
+	switch place {
+	case "alone":
+		seq = []asserts.Assertion{big}
+	case "first":
+		seq = []asserts.Assertion{big, small}
+	default:
+		seq = []asserts.Assertion{small, big, small}
+	}
+	var buf bytes.Buffer
+	enc := asserts.NewEncoder(&buf)
+	for _, a := range seq {
+		if err := enc.Encode(a); err != nil {
+			eng.HarnessError("C20: Encoder: %v", err)
+		}
+	}
+	pub, err := signDB.PublicKey("")
+	if err != nil {
+		eng.HarnessError("C20: %v", err)
+	}
+	dec := asserts.NewDecoder(&chunkReader{b: buf.Bytes(), n: chunk})
+	for k, want := range seq {
+		got, err := dec.Decode()
+		if err != nil {
+			return fmt.Sprintf("assertion %d of the stream: %v", k, err)
+		}
+		if d := sameAssertion(want, got); d != "" {
+			return fmt.Sprintf("assertion %d of the stream: %s", k, d)
+		}
+		if !bytes.Equal(asserts.Encode(got), asserts.Encode(want)) {
+			return fmt.Sprintf("assertion %d of the stream: Encode(decoded) differs from the original encoding", k)
+		}
+		if err := asserts.SignatureCheck(got, pub); err != nil {
+			return fmt.Sprintf("assertion %d of the stream: the signature of the decoded assertion no longer verifies: %v", k, err)
+		}
+	}
+	if _, err := dec.Decode(); err != io.EOF {
+		return fmt.Sprintf("expected io.EOF at the end of the stream, got %v", err)
+	}
+	return ""
+}
+
+// ---------------------------------------------------------------- part 3c: integer-valued headers
+
+// setHeader replaces (or adds after the first line) a top-level single-line header of an encoded assertion.
+func setHeader(enc []byte, name, value string) []byte {
+	head, rest := enc, []byte(nil)
+	if i := bytes.Index(enc, []byte("\n\n")); i >= 0 {
+		head, rest = enc[:i], enc[i:]
+	}
+	lines := strings.Split(string(head), "\n")
+	var out []string
+	done := false
+	for i := 0; i < len(lines); i++ {
+		if strings.HasPrefix(lines[i], name+":") {
+			out = append(out, name+": "+value)
+			done = true
+			for i+1 < len(lines) && strings.HasPrefix(lines[i+1], " ") {
+				i++ // drop continuation lines of the old value
+			}
+			continue
+		}
+		out = append(out, lines[i])
+	}
+	if !done {
+		out = append(out[:1], append([]string{name + ": " + value}, out[1:]...)...)
+	}
+	return append([]byte(strings.Join(out, "\n")), rest...)
+}
+
+func intValues(headLen, bodyLen int) []string {
+	vals := []string{
+		"-9223372036854775809", "-9223372036854775808", "-9223372036854775807", "-4294967296", "-2147483649", "-2147483648", "-100000",
+		"-65536", "-4097", "-4096", "-2", "-1", "-0", "0", "00", "+0", "1", "+1", "01", "007", "2", "4095", "4096", "4097", "65535", "65536",
+		"131071", "131072", "131073", "2097151", "2097152", "2097153", "2147483647", "2147483648", "4294967295", "4294967296",
+		"9223372036854775806", "9223372036854775807", "9223372036854775808", "18446744073709551615", "18446744073709551616",
+		strings.Repeat("9", 100), "-" + strings.Repeat("9", 100), strings.Repeat("1", 20000), strings.Repeat("0", 5000) + "1",
+		" 1", "1 ", "1.0", "1e3", "0x10", "0b1", "1_0", "", "-", "+", "١", "１",
+	}
+	// around the real body size and around the sizes at which a negative length makes the content buffer size negative
+	for _, n := range []int{bodyLen - 1, bodyLen, bodyLen + 1, -bodyLen, -(headLen - 2), -(headLen - 1), -headLen, -(headLen + 1), -(headLen + 2), -(headLen + 3)} {
+		vals = append(vals, strconv.Itoa(n))
+	}
+	return vals
+}
+
+var intHeaders = map[string][]string{
+	"":               {"body-length", "revision", "format"},
+	"validation-set": {"sequence"},
+	"repair":         {"repair-id"},
+}
+
 // ---------------------------------------------------------------- part 4: limits
 
 // limitInput builds a raw single assertion whose headers+separator, body or signature+separator have the given size.
@@ -741,6 +912,12 @@ func TestC20(t *testing.T) {
 					}
 					r.Violation(k, msg, c)
 				}
+			case "bigstream":
+				msg := checkBig(pool[0], c.HeadLen, c.BodyLen, c.Place, c.Chunk)
+				fmt.Printf("replay bigstream %s: %s\n", c.Desc, msg)
+				if msg != "" {
+					r.Violation("bigstream:"+c.Desc, msg, c)
+				}
 			case "limit":
 				for _, lc := range limits {
 					if lc.which == c.Limit && lc.name == c.Decoder {
@@ -832,6 +1009,50 @@ func TestC20(t *testing.T) {
 			if msg != "" {
 				r.Violation("stream:"+c.Desc, msg, c)
 			}
+		}
+	})
+
+	// ---- part 2b: assertions whose headers / body / headers+body sit around the decoder's read-ahead sizes
+	smallHead := 0
+	{
+		content, _ := bigAssertion(0, 0).Signature()
+		smallHead = len(content) + 2
+	}
+	headSizes := []int{0, 4094, 4095, 4096, 4097, 4098, 8191, 8192, 8193}
+	bodySizes := []int{0, 1, 4096 - smallHead - 1, 4096 - smallHead, 4096 - smallHead + 1, 4095, 4096, 4097, 8192 - smallHead, 8191, 8192, 8193, 70000}
+	bigChunks := []int{1, 4096, 4097, 1 << 20}
+	type bwork struct {
+		h, b  int
+		place string
+		chunk int
+	}
+	var bw []bwork
+	for _, h := range headSizes {
+		for _, b := range bodySizes {
+			for _, place := range []string{"alone", "first", "second"} {
+				for _, ch := range bigChunks {
+					bw = append(bw, bwork{h, b, place, ch})
+				}
+			}
+		}
+	}
+	var bigCases int64
+	parallelFor(len(bw), func(w, i int) {
+		x := bw[i]
+		c := &c20Case{Kind: "bigstream", HeadLen: x.h, BodyLen: x.b, Place: x.place, Chunk: x.chunk, Desc: fmt.Sprintf("head=%d:body=%d:%s:chunk=%d", x.h, x.b, x.place, x.chunk)}
+		enter(w, c)
+		msg := func() (msg string) {
+			defer func() {
+				if p := recover(); p != nil {
+					msg = fmt.Sprintf("panic: %v", p)
+				}
+			}()
+			return checkBig(pool[0], x.h, x.b, x.place, x.chunk)
+		}()
+		leave(w)
+		atomic.AddInt64(&bigCases, 1)
+		if msg != "" {
+			r.Violation("bigstream:"+c.Desc, msg, c)
 		}
 	})
 
@@ -932,6 +1153,61 @@ func TestC20(t *testing.T) {
 		st.addTo(&total)
 	})
 
+	// ---- part 3c: every integer-valued header x boundary values x placement in a stream
+	var intCases, intAcceptedBefore int64
+	intAcceptedBefore = total.accepted + total.streamAccepted
+	type iwork struct {
+		base        string
+		enc         []byte
+		name, value string
+	}
+	var iw []iwork
+	intBases := append([]base{}, bases[:len(pool)]...)
+	intBases = append(intBases, base{"test-only", []byte("type: test-only\nauthority-id: canonical\nprimary-key: k\nsign-key-sha3-384: " + digest + "\n\nAXNpZw==\n")})
+	for _, b := range intBases {
+		headLen, bodyLen := len(b.enc), 0
+		if c, _, ok := bytes.Cut(b.enc, []byte("\n\n")); ok {
+			headLen = len(c) + 2
+		}
+		if a, err := asserts.Decode(b.enc); err == nil {
+			bodyLen = len(a.Body())
+		}
+		for _, name := range append(append([]string{}, intHeaders[""]...), intHeaders[b.name]...) {
+			for _, v := range intValues(headLen, bodyLen) {
+				iw = append(iw, iwork{b.name, b.enc, name, v})
+			}
+		}
+	}
+	smallEnc := asserts.Encode(pool[0])
+	parallelFor(len(iw), func(w, i int) {
+		x := iw[i]
+		m := setHeader(x.enc, x.name, x.value)
+		var st byteStats
+		for _, place := range []string{"single", "first", "second"} {
+			in := m
+			switch place {
+			case "first":
+				in = append(append(append([]byte(nil), m...), '\n'), smallEnc...)
+			case "second":
+				in = append(append(append([]byte(nil), smallEnc...), '\n'), m...)
+			}
+			v := x.value
+			if len(v) > 40 {
+				v = fmt.Sprintf("%s...(%d chars)", v[:12], len(v))
+			}
+			c := &c20Case{Kind: "bytes", Desc: fmt.Sprintf("int:%s:%s=%q:%s", x.base, x.name, v, place), Input: base64.StdEncoding.EncodeToString(in)}
+			if k, msg := judgeBytes(r, w, c, in, &st); msg != "" {
+				if k == "" {
+					k = "bytes:" + c.Desc
+				}
+				r.Violation(k, msg, c)
+			}
+			atomic.AddInt64(&intCases, 1)
+		}
+		st.addTo(&total)
+	})
+	intAccepted := total.accepted + total.streamAccepted - intAcceptedBefore
+
 	// ---- part 4: limits
 	var limitCases, limitAccepted int64
 	type lwork struct {
@@ -988,6 +1264,10 @@ func TestC20(t *testing.T) {
 	bounds["roundtrip_bodies"] = len(bodyKinds)
 	bounds["stream_pool"] = len(pool)
 	bounds["stream_chunkings"] = len(chunks)
+	bounds["bigstream_head_sizes"] = len(headSizes)
+	bounds["bigstream_body_sizes"] = len(bodySizes)
+	bounds["bigstream_chunkings"] = len(bigChunks)
+	bounds["integer_header_cases"] = len(iw)
 	bounds["text_alphabet"] = len(textAlphabet)
 	bounds["text_max_len"] = maxLen
 	r.Info("bounds", bounds)
@@ -1003,10 +1283,13 @@ func TestC20(t *testing.T) {
 	r.Add("text_inputs", textCases)
 	r.Add("text_inputs_accepted", textAccepted)
 	r.Add("text_values_resigned", resigned)
+	r.Add("bigstream_cases", bigCases)
+	r.Add("integer_header_inputs", intCases)
+	r.Add("integer_header_assertions_accepted", intAccepted)
 	r.Add("limit_cases", limitCases)
 	r.Add("limit_cases_at_or_below_limit", limitAccepted)
-	r.Add("evaluations", rtCases+streamCases+total.cases+limitCases)
-	r.Add("distinct_nontrivial", rtMultiline+total.rejected+limitCases)
+	r.Add("evaluations", rtCases+streamCases+bigCases+total.cases+limitCases)
+	r.Add("distinct_nontrivial", rtMultiline+bigCases+total.rejected+limitCases)
 	r.Sample(map[string]interface{}{"malformed_base": string(bases[2].enc)})
-	finish("round trip: every grammar value x type x body; streams: every sequence of 1..3 pool assertions x chunking; malformed: every byte position of every base x {substitution values, prefix, deletion, insertions} and every text over the alphabet up to the length bound; limits: sizes limit-2..limit+2 x placement x chunking. distinct_nontrivial = round trips whose value is multi-line or nested + malformed inputs rejected by Decode + limit cases")
+	finish("round trip: every grammar value x type x body; streams: every sequence of 1..3 pool assertions x chunking; malformed: every byte position of every base x {substitution values, prefix, deletion, insertions} and every text over the alphabet up to the length bound; limits: sizes limit-2..limit+2 x placement x chunking; big streams: head size x body size around 4096/8192 x placement x chunking (byte-identical encoding, signature re-verified); integer headers: every integer-valued header x boundary values x {single, first, second in stream}. distinct_nontrivial = round trips whose value is multi-line or nested + big-stream cases + malformed inputs rejected by Decode + limit cases")
 }
